@@ -85,6 +85,24 @@ theorem rechunkIntoSrc_sound : Sound rechunkIntoSrc := by
     exact ⟨by simpa only [WF, wf] using hw.2, rfl, fun i _ => rfl⟩
   · exact absurd h (by simp)
 
+theorem rechunkIntoRegion_sound : Sound rechunkIntoRegion := by
+  intro env e e' hw h
+  unfold rechunkIntoRegion at h
+  split at h
+  · rename_i id sh ch idx l
+    split at h
+    · dsimp only at h
+      split at h
+      · rename_i hc
+        injection h with h; subst h
+        simp only [WF, wf, Bool.and_eq_true] at hw
+        refine ⟨?_, rfl, fun i _ => rfl⟩
+        simp only [WF, wf, Bool.and_eq_true]
+        exact ⟨hc.1, hw.1.2⟩
+      · exact absurd h (by simp)
+    · exact absurd h (by simp)
+  · exact absurd h (by simp)
+
 theorem unpermL_length {α} (perm : List Nat) (x : List α) (d : α) :
     (unpermL perm x d).length = perm.length := by simp [unpermL]
 
